@@ -115,7 +115,7 @@ def solver_requests(ctx):
         budget = rng.choice([0, 1, 2, 3, 5, 20, 200])
         params = ["solver.max_iter=%d" % budget, "xcrit=%s" % crit]
         tol = rng.choice([1e-1, 1e-3, 1e-6, 1e-10, 0.0])
-        scenario = rng.choice(["plain"] * 5 + ["nan", "noprogress", "maxtime", "stop", "L0", "backtrack"])
+        scenario = rng.choice(["plain"] * 5 + ["nan", "noprogress", "slowprogress", "maxtime", "stop", "L0", "backtrack"])
         kw = {}
         x0 = rng.vec(prob.n, 2.0)
         if scenario == "nan":
@@ -129,6 +129,13 @@ def solver_requests(ctx):
             params += ["solver.max_no_progress=%d" % mnp, "solver.max_iter=50", "solver.Lipschitz.L_0=1"]
             tol = 1e-12
             if solver == "fista": params += ["solver.L_min=1", "solver.L_max=1"] if rng.random() < 0.5 else []
+        elif scenario == "slowprogress":
+            # badly scaled: the iterate changes in every iteration, but only by 1e-13 .. 1e-15 of its norm (never exactly 0): NOT "no progress"
+            big = rng.choice([1e9, 1e10, 1e11]); off = rng.choice([1000.0, 4096.0, 300.0])
+            prob = sl.Problem(2, 0, [[big, 0.0], [0.0, 1.0]], [-big * off, -off], [0.0, 0.0], [], [], [-sl.INF] * 2, [sl.INF] * 2, [], [])
+            x0 = [off, off - rng.choice([1.0, 0.5, 2.0])]
+            params = ["solver.max_iter=%d" % rng.choice([25, 40]), "xcrit=%s" % crit, "solver.max_no_progress=%d" % rng.choice([1, 3, 10])]
+            tol = 1e-12
         elif scenario == "maxtime":
             kw["max_time_ns"] = 0
         elif scenario == "stop":
@@ -146,6 +153,15 @@ def solver_requests(ctx):
         if solver == "panoc" and rng.random() < 0.3: params.append("solver.eager_gradient_eval=true")
         reqs.append((scenario, crit, budget, sl.Request(prob, x0, y0, S0, solver, direction, "inner", params,
                                                        always=rng.random() < 0.7, tol=tol, **kw)))
+    # slow progress on badly scaled problems, every unaccelerated stack (accelerated ones converge at once): x changes by 1e-13..1e-15 of its
+    # norm in EVERY iteration, so NoProgress must not be reported and the run must use its whole budget
+    for solver, direction in (("panoc", "noop"), ("zerofpr", "noop"), ("fista", "-"), ("panoc", "lbfgs"), ("zerofpr", "lbfgs")):
+        for big, off, dx in ((1e10, 1000.0, 1.0), (1e9, 4096.0, 0.5), (1e11, 300.0, 2.0), (1e10, 1000.0, 1e-3)):
+            for mnp in (1, 3, 10):
+                prob = sl.Problem(2, 0, [[big, 0.0], [0.0, 1.0]], [-big * off, -off], [0.0, 0.0], [], [], [-sl.INF] * 2, [sl.INF] * 2, [], [])
+                crit = rng.choice(["ApproxKKT", "ProjGradNorm", "FPRNorm"])
+                params = ["solver.max_iter=30", "xcrit=%s" % crit, "solver.max_no_progress=%d" % mnp]
+                reqs.append(("slowprogress", crit, 30, sl.Request(prob, [off, off - dx], [], [], solver, direction, "inner", params, always=True, tol=1e-14)))
     # FISTA in fixed-step mode (L_min == L_max) with general constraints and every criterion: psi(x_hat) / y_hat are evaluated on a different path there
     for i in range(ctx.n(30, 200)):
         prob, kind = sl.gen_problem(rng, "qp", n=rng.choice([1, 2, 3]), m=rng.choice([1, 2, 3]))
